@@ -1317,6 +1317,10 @@ func TestCheck(t *testing.T) {
 			req = append(req, "recrash."+p)
 		}
 	}
+	for _, r := range reuseRelations {
+		req = append(req, "reuse.write."+r)
+	}
+	req = append(req, "reuse.after-write-ok", "reuse.caller-mutation-checks", "reuse.exactly-one-version-dir")
 	rec.Note("require", req)
 	rec.Note("exhaustive", true)
 	rec.Note("exhaustive_scope", "per sequence: every hook hit of every Write is a crash point, and every hook hit of the recovery Write is a second crash point; the sequences themselves are all kind sequences up to length 2 (quick) / 4 (thorough) plus seeded ones")
@@ -1339,12 +1343,24 @@ func TestCheck(t *testing.T) {
 	}
 	childEnv = append(childEnv, "GOMAXPROCS=2")
 
-	for idx, p := range buildPlan() {
+	seqPlan := buildPlan()
+	reusePl := buildReusePlan()
+	rec.Planned(len(seqPlan) + len(reusePl))
+	rec.Note("caller_owned_buffer_cases", fmt.Sprintf("case indices %d..%d: crash-free histories of one Dir with ONE caller-owned map whose byte slices are re-used and overwritten in place between Writes (all / one of three / changed and changed back / mutated right after Write returned), whose key set changes in the same map object, and identical consecutive sets in fresh buffers; after every nil return the target must show exactly the set of THAT call and only the current version directory may remain; one evaluation per Write, non-trivial = not the first Write of the history", len(seqPlan), len(seqPlan)+len(reusePl)-1))
+	for idx, p := range seqPlan {
 		if !mon.Mine(idx) {
 			continue
 		}
 		rec.Begin(idx, p.desc())
 		c := &caseRun{idx: idx, p: p, root: root, shape: shapes(p.Writes)}
 		c.run()
+	}
+	for i, p := range reusePl {
+		idx := len(seqPlan) + i
+		if !mon.Mine(idx) {
+			continue
+		}
+		rec.Begin(idx, p.desc())
+		runReuse(idx, p, root)
 	}
 }
